@@ -438,6 +438,27 @@ struct QfEngine : public Engine
    {
       const std::string & op = t[0];
       uint32 i = 0, j = 0;
+      if (((op == "expr")&&(t.size() == 2))||((op == "exprt")&&(t.size() >= 3)))
+      {
+         std::string e; QueryFilterRef want; RTP wantRT;
+         if (op == "exprt") {size_t at = 2; if ((!parseTree(t, at, 0, want, wantRT))||(at != t.size())||(want() == NULL)) return "bad-op";}
+         if ((!unhex(t[1], e))||(!nulFree(e))) return "bad-op";
+         ConstQueryFilterRef f = CreateQueryFilterFromExpression(S(e));
+         if (f() == NULL) {if (want()) oracleFail("an expression of the documented grammar is rejected"); return "err";}
+         Message a; if (f()->SaveToArchive(a).IsError()) return "err";
+         const std::string d = dumpArch(a);
+         if (want())
+         {
+            // what the documented grammar says the expression denotes
+            Message b; (void) want()->SaveToArchive(b);
+            const std::string dw = dumpArch(b);
+            if (dw != d) oracleFail("the expression does not yield the filter the grammar denotes: got " + d + " want " + dw);
+         }
+         // the parsed filter survives archiving like any other
+         bool saved; QueryFilterRef again = viaWire(*f(), saved);
+         if ((!saved)||(again() == NULL)) oracleFail("a filter built from an expression does not survive archiving");
+         return "ok " + d;
+      }
       if ((t.size() < 2)||(!toU32(t[1], i))||(i >= (uint32)NSLOTS))
       {
          if ((op == "tree")||(op == "mk")||(op == "rt")||(op == "arch")||(op == "eval")) return "bad-op";
@@ -785,6 +806,172 @@ struct QfEngine : public Engine
       }
    }
 
+   // ------------------------------------------------------------------ expression strings
+   // an AST is printed twice: as an expression string (with random spelling: synonyms, letter case, blanks, optional parentheses)
+   // and as the prefix form of the tree the documented grammar (html/Beginners Guide.html) says it denotes
+   static std::string sp(Rng & r) {return r.chance(2,3) ? " " : r.chance(1,2) ? "" : r.chance(1,2) ? "  " : "\t";}
+   static std::string spx(Rng & r) {return r.chance(2,3) ? " " : r.chance(1,2) ? "  " : "\n";}   // at least one blank
+   static std::string recase(Rng & r, const std::string & w) {if (r.chance(3,4)) return w; std::string o = w; for (size_t i=0; i<o.size(); i++) if ((o[i] >= 'a')&&(o[i] <= 'z')&&(r.chance(1,2))) o[i] = (char)(o[i]-32); return o;}
+   static std::string zeros(int n) {return hexOf(std::string(n, '\0'));}
+   // the operand literal of a typed leaf: text for the expression, in-memory bytes for the tree
+   void genOperand(Rng & r, const std::string & ty, bool isDefault, std::string & text, std::string & bytes)
+   {
+      if (ty == "bool")
+      {
+         const bool b = r.chance(1,2);
+         static const char * on[] = {"true", "yes", "1", "on", "T"}; static const char * off[] = {"false", "off", "0", "no", "F"};
+         text = isDefault ? (b ? on[r.below(5)] : off[r.below(5)]) : std::string(b ? "true" : "false");
+         bytes = std::string(1, (char)(b ? 1 : 0)); return;
+      }
+      if ((ty == "f32")||(ty == "f64"))
+      {
+         static const char * lits[] = {"0.5", "1.5", "-2.25", "100.0", "3.", ".125", "-0.0", "21.75", "1024.5", "150.0", "21"};
+         static const double vals[] = {0.5, 1.5, -2.25, 100.0, 3.0, 0.125, -0.0, 21.75, 1024.5, 150.0, 21.0};
+         const uint32 i = r.below(11); text = lits[i];
+         if (ty == "f64") {uint64_t b; memcpy(&b, &vals[i], 8); bytes = le(b, 8);} else {const float f = (float)vals[i]; uint32_t b; memcpy(&b, &f, 4); bytes = le(b, 4);}
+         return;
+      }
+      if (ty == "pt")
+      {
+         const float x = (float)((int)r.below(40) - 20) * 0.5f, y = (float)r.below(9);
+         char buf[64]; snprintf(buf, sizeof(buf), "%g,%g", (double)x, (double)y); text = buf;
+         uint32_t bx, by; memcpy(&bx, &x, 4); memcpy(&by, &y, 4); bytes = le(bx, 4) + le(by, 4); return;
+      }
+      const int sz = (int)tySize(ty);
+      int64_t v = r.chance(1,2) ? (int64_t)r.below(200) - 100 : r.chance(1,2) ? (int64_t)(int32_t)r.next() : (int64_t)(r.next() >> r.below(40));
+      if (sz == 1) v = (int64_t)r.below(256) - 128; else if (sz == 2) v = (int64_t)r.below(65536) - 32768; else if (sz == 4) v = (int64_t)(int32_t)v;
+      else if (r.chance(1,8)) v = r.chance(1,2) ? INT64_MIN : INT64_MAX;
+      char buf[40]; snprintf(buf, sizeof(buf), "%lld", (long long)v);
+      text = std::string(((v >= 0)&&(sz != 8)&&(r.chance(1,6))) ? "+" : "") + buf;   // Atoll() (int64) takes no leading '+': "(int64)+5" is 0
+      bytes = le((uint64_t)v, sz);
+   }
+   void genLeaf(Rng & r, std::string & e, std::string & t)
+   {
+      // field names, several of which contain a keyword or synonym of the lexer ("or ", "what", "not", "is ", "and ", "xor ", "exists")
+      static const char * names[] = {"age", "weight", "n1", "x_y", "Foo", "k", "sober", "eyecolor", "v2", "somewhat", "notes", "basis", "android", "this", "format", "taxor", "coexists", "band"};
+      const std::string nm = names[r.below(18)];
+      const std::string fn = hexOf(nm);
+      // "age:2" = third value of the field "age"
+      uint32 idx = 0; std::string lhs = nm;
+      if (r.chance(1,4)) {idx = r.chance(3,4) ? r.below(4) : r.chance(1,2) ? 0xFFFFFFFFu : r.below(100000); lhs += ":" + u64s(idx);}
+      const std::string ix = " " + u64s(idx) + " ";
+      static const char * nops[]  = {"==", "<", ">", "<=", ">=", "!="};
+      const uint32 k = r.below(20);
+      if (k < 3)
+      {
+         const uint32 op = r.below(6); const uint32 v = r.chance(1,2) ? r.below(10) : r.chance(1,2) ? 0xFFFFFFFFu - r.below(2) : (uint32)r.next();
+         const std::string ops = (op == 0) ? (r.chance(1,3) ? std::string("==") : r.chance(1,2) ? std::string("=") : recase(r, "is ")) : std::string(nops[op]);
+         e = recase(r, "what") + sp(r) + ops + sp(r) + u64s(v);
+         uint64_t lo = 0, hi = 0xFFFFFFFFu; bool imp = false, neg = false;
+         switch(op) {case 0: lo = hi = v; break; case 5: lo = hi = v; neg = true; break; case 1: if (v == 0) imp = true; else hi = v-1; break; case 2: if (v == 0xFFFFFFFFu) imp = true; else lo = (uint64_t)v+1; break; case 3: hi = v; break; default: lo = v; break;}
+         if (imp) {lo = 1; hi = 0;}   // "no what-code is < 0": a filter that never matches
+         t = std::string(neg ? "max 0 1 " : "") + "what " + u64s(lo) + " " + u64s(hi);
+         return;
+      }
+      if (k < 5)
+      {
+         static const char * casts[] = {"", "(int32)", "(int8)", "(int16)", "(int64)", "(float)", "(double)", "(bool)", "(string)", "(point)", "(rect)"};
+         static const uint32 tcs[] = {B_ANY_TYPE, B_INT32_TYPE, B_INT8_TYPE, B_INT16_TYPE, B_INT64_TYPE, B_FLOAT_TYPE, B_DOUBLE_TYPE, B_BOOL_TYPE, B_STRING_TYPE, B_POINT_TYPE, B_RECT_TYPE};
+         const uint32 c = r.chance(1,2) ? 0 : r.below(11);
+         e = recase(r, "exists ") + sp(r) + recase(r, casts[c]) + sp(r) + lhs;
+         t = "exists " + fn + ix + u64s(tcs[c]);
+         return;
+      }
+      if (k < 9)
+      {
+         // strings
+         static const char * sops[] = {"==", "<", ">", "<=", ">=", "!=", "startswith ", "endswith ", "contains ", "isstartof ", "isendof ", "issubstringof ", "matches ", "matchesregex "};
+         static const char * vals[] = {"green", "twenty-one", "a", "Zed", "x9", "hello_world", "q.r", "notes", "somewhat"};
+         const uint32 op = r.below(14); const uint32 opc = (op < 12) ? op : (op == 12) ? 24 : 25;
+         const std::string v = vals[r.below(9)];
+         const bool quoted = r.chance(1,2);
+         const std::string vs = quoted ? "\"" + (r.chance(1,4) ? v + " " + v : v) + "\"" : (r.chance(1,4) ? recase(r, "(string)") + sp(r) : std::string()) + v;
+         const std::string vv = (quoted && vs.size() > v.size()+2) ? v + " " + v : v;
+         std::string dtok = "-";
+         if (r.chance(1,5)) {const std::string d = r.chance(1,6) ? std::string() : std::string(vals[r.below(9)]); lhs += "|" + d; dtok = hexOf(d);}   // "numstr|100 startswith ..."
+         e = lhs + ((op < 6) ? sp(r) : spx(r)) + recase(r, sops[op]) + sp(r) + vs;
+         t = "str " + fn + ix + u64s(opc) + " " + hexOf(vv) + " " + dtok;
+         return;
+      }
+      // numeric leaves: type by heuristics (true/false, digits, dot, f suffix, comma) or by an explicit cast
+      static const char * tys[]   = {"bool", "bool", "i32", "i32", "i32", "i8", "i16", "i64", "i64", "f64", "f64", "f32", "f32", "pt"};
+      static const char * casts[] = {"", "(bool)", "", "", "(int32)", "(int8)", "(int16)", "(int64)", "(int64)", "", "(double)", "", "(float)", ""};
+      const uint32 c = r.below(14); const std::string ty = tys[c];
+      std::string cast = casts[c];
+      if ((ty == "pt")&&(r.chance(1,3))) cast = "(point)";
+      const uint32 op = ((ty == "bool")||(ty == "pt")) ? (r.chance(2,3) ? 0 : 5) : r.below(6);
+      std::string text, bytes; genOperand(r, ty, !cast.empty(), text, bytes);
+      if ((ty == "f32")&&(cast.empty())) text += "f";                                                        // "21f": float
+      if ((ty == "f64")&&(cast.empty())&&(text.find('.') == std::string::npos)) text += ".0";                // a dot: double
+      if ((ty == "bool")&&(cast.empty())) text = recase(r, text);
+      std::string dtok = "-";
+      if (r.chance(1,5)) {std::string dt, db; genOperand(r, ty, true, dt, db); lhs += "|" + dt; dtok = hexOf(db);}   // "weight|100 >= 150.0f": the default has the operand's type
+      e = lhs + sp(r) + nops[op] + sp(r) + recase(r, cast) + (cast.empty() ? std::string() : sp(r)) + text;
+      t = "num " + ty + " " + fn + ix + u64s(op) + " 0 " + hexOf(bytes) + " " + zeros((int)tySize(ty)) + " " + dtok;
+   }
+   void genExprAst(Rng & r, int depth, std::string & e, std::string & t)
+   {
+      if ((depth >= 3)||(r.chance(1,2)))
+      {
+         genLeaf(r, e, t);
+         if (r.chance(1,4)) {e = (r.chance(1,2) ? "!" : recase(r, "not ")) + sp(r) + "(" + sp(r) + e + sp(r) + ")"; t = "max 0 1 " + t;}
+         else if (r.chance(1,6)) {e = "!" + e; t = "max 0 1 " + t;}   // '!' in front of a bare predicate negates it
+      }
+      else
+      {
+         const uint32 c = r.below(3), n = r.range(2,4);
+         static const char * sym[3][2] = {{"&&", "and "}, {"||", "or "}, {"^", "xor "}};
+         const bool word = r.chance(1,3);
+         std::string es, ts;
+         for (uint32 i=0; i<n; i++)
+         {
+            std::string ke, kt; genExprAst(r, depth+1, ke, kt);
+            const bool neg = r.chance(1,6);
+            if (i) es += sp(r) + (word ? recase(r, sym[c][1]) : std::string(sym[c][0])) + sp(r);
+            es += std::string(neg ? "!" : "") + "(" + sp(r) + ke + sp(r) + ")";
+            ts += std::string(" ") + (neg ? "max 0 1 " : "") + kt;
+         }
+         e = es;
+         t = ((c == 0) ? "min 4294967295 " : (c == 1) ? "min 0 " : "xor ") + u64s(n) + ts;
+      }
+      // redundant parentheses and double negation are part of the grammar: "((x))", "!(!(x))", "(!(x))"
+      if (r.chance(1,8)) e = "(" + sp(r) + e + sp(r) + ")";
+      else if (r.chance(1,12)) {e = "!(" + sp(r) + e + sp(r) + ")"; t = "max 0 1 " + t;}
+   }
+   // hostile / undocumented spellings: judged by the model only
+   std::string genWildExpr(Rng & r)
+   {
+      std::string e, t; genExprAst(r, r.below(3), e, t);
+      static const char * frag[] = {"(", ")", "!", "<", ">", "==", "<=", ">=", "!=", "&&", "||", "^", "=", "\"", " ", "\t", "\x0b", "\x0c", "what", "exists ", "is ", "and ", "or ", "not ", "xor ", "equals ", "(int32)", "(int8)", "(string)", "(bool)", "(float)",
+                                    "(double)", "(int64)", "(int16)", "(point)", "(rect)", ":", "|", ":1", ":2", "|5", "|x", ":-1", ":99999999999", "this", "format", "android", "x", "7", "-", "+", ".", ",", "1,2", "1,2,3,4", "f", "1e3", "0x10", "inf", "nan", "0.1", "true", "FALSE", "\xc3\xa9",
+                                    "startswith ", "contains ", "matches ", "issubstringof ", "18446744073709551616", "9223372036854775807", "-9223372036854775807", "4294967296", "a|b|c", "a:b:2", "\"a:1\"", "\"q|5\"", "()", "(("};
+      const uint32 mode = r.below(10);
+      if (mode < 4)
+      {
+         // field-name suffixes and other spellings the documentation describes but the denotation oracle does not cover here
+         static const char * pre[] = {"age:1 >= 21", "age|18 >= 21", "w:2|7 < 5", "exists age:1", "n|x == abc", "n:3 contains \"q\"", "a| == 1", "k:0 == (int8)5", "this == 1", "format == 2", "android > 3", "axor == 1", "x == 1e3", "x == 0x10", "x == 0.1", "x == (float)inf",
+                                     "((a == 1))", "(a == 1", "a == 1)", "a == (int32)\"5\"", "\"a b\" == 5", "what foo 5", "a exists b", "x == (rect)1,2,3", "x == 1,,2", "x == (int64)--5", "x == (int32)99999999999", "what == 4294967296", "what == -1", "exists \"x:1\"", "!exists (int32)age", "not not (a == 1)", "eyecolor == \"green\"", "!(eyecolor contains \"green\")", "(!(a == 1)) && (b == 2)", "!(!(a == 1))", "exists\nage"};
+         std::string s = pre[r.below(sizeof(pre)/sizeof(pre[0]))];
+         if (r.chance(1,3)) {std::string e2, t2; genExprAst(r, 2, e2, t2); s = "(" + s + ") && (" + e2 + ")";}
+         return s;
+      }
+      const uint32 nm = r.range(1,3);
+      for (uint32 k=0; k<nm; k++)
+      {
+         const uint32 len = (uint32)e.size();
+         switch(r.below(5))
+         {
+            case 0: if (len) e.erase(r.below(len), r.range(1,3)); break;
+            case 1: e.insert(r.below(len+1), frag[r.below(sizeof(frag)/sizeof(frag[0]))]); break;
+            case 2: if (len) e[r.below(len)] = "()!<>=&|^\" :|.,-+fxie\t"[r.below(23)]; break;
+            case 3: {std::string g; const uint32 n = r.range(1,6); for (uint32 i=0; i<n; i++) g += frag[r.below(sizeof(frag)/sizeof(frag[0]))]; e = r.chance(1,2) ? g : e + g;} break;
+            default: if (len > 1) {const uint32 a = r.below(len); e = e.substr(a) + e.substr(0, a);} break;
+         }
+      }
+      for (size_t i=0; i<e.size(); i++) if (e[i] == 0) e[i] = ' ';
+      return e;
+   }
+
    virtual void gen(Rng & r, const Tier & tier, FILE * o)
    {
       out = o;
@@ -793,8 +980,18 @@ struct QfEngine : public Engine
       {
          fprintf(out, "case %u\n", c*tier.nshards + tier.shard);
          reset(); newPools(r);
-         const uint32 shape = r.below(10);
-         if (shape < 7)
+         const uint32 shape = r.below(13);
+         if (shape >= 10)
+         {
+            // expression strings: documented forms with their denotation, then hostile spellings
+            const uint32 n = r.range(3,8);
+            for (uint32 k=0; k<n; k++)
+            {
+               if (r.chance(3,5)) {std::string e, t; genExprAst(r, r.chance(1,3) ? 3 : r.below(3), e, t); emit("exprt " + hexOf(e) + " " + t);}
+               else emit("expr " + hexOf(genWildExpr(r)));
+            }
+         }
+         else if (shape < 7)
          {
             // a tree, its archive, its restored twin, and Messages on both
             const int maxDepth = r.chance(1,4) ? 5 : r.range(0,3);
